@@ -50,6 +50,8 @@ type Program struct {
 	entryMemo map[*ssa.Function][]Lit
 	entryBusy map[*ssa.Function]bool
 	boolSums  map[*ssa.Function]*boolSum
+	ov        map[ssa.Value]string
+	ovMemo    map[descKey]string
 }
 
 type descKey struct {
